@@ -77,7 +77,9 @@ func Harness_C10_stream_write() {
 	for i := range own {
 		own[i] = verif_Byte()
 	}
-	sizes := []int{0, 1, MaxFrameSize - 1, MaxFrameSize, MaxFrameSize + 1, 2 * MaxFrameSize, 2*MaxFrameSize + 3}
+	// frame-size seams and the buffer-size boundaries a writer may special-case (4/8/32 KiB, with
+	// and without room for the 21-byte frame header)
+	sizes := []int{0, 1, 4096 - 21, 4096 - 20, 4095, 4096, 4097, 8192, 32768 - 21, 32768, MaxFrameSize - 21, MaxFrameSize - 1, MaxFrameSize, MaxFrameSize + 1, 2 * MaxFrameSize, 2*MaxFrameSize + 3}
 	n := sizes[verif_Choose(len(sizes))]
 	p := make([]byte, n)
 	for i := range p {
